@@ -750,10 +750,12 @@ def r03_5(prog, rep, rid="R03.5"):
 def r03_3c(prog, rep):
     """A clone copies as many bytes as it allocates; the handle table of the rule streams maps slot i to element i."""
     rid = "R03.3"
-    for name, file in (("clone_evmux", "evstrm.c"),):
-        if not prog.has_fn(name, file):
-            raise AnalysisBroken("R03.3: %s not found" % name)
-        f = prog.fn(name, file)
+    ncl = 0
+    for cname, slots in sorted(classes(prog).items()):
+        name = slots.get("clone")
+        if not name or cname not in IN_SCOPE or not prog.functions.get(name):
+            continue
+        f = prog.fn(name)
         cfg = f.cfg
         allocs = {}
         for b, i, x, line in cfg.all_elems():
@@ -764,22 +766,40 @@ def r03_3c(prog, rep):
                 r = strip_casts(rhs)
                 if r.get("k") == "call" and r.get("fn") in ("malloc", "calloc"):
                     size = show(strip_casts(r["a"][0])) if r["fn"] == "malloc" else "(%s * %s)" % (show(strip_casts(r["a"][0])), show(strip_casts(r["a"][1])))
-                    allocs[lv(l)] = (r["fn"], size, [strip_casts(a) for a in r["a"]])
+                    nbytes = const_eval(f, r["a"][0]) if r["fn"] == "malloc" else (
+                        None if const_eval(f, r["a"][0]) is None or const_eval(f, r["a"][1]) is None else const_eval(f, r["a"][0]) * const_eval(f, r["a"][1]))
+                    allocs[lv(l)] = (r["fn"], size, [strip_casts(a) for a in r["a"]], nbytes)
+        if not allocs:
+            continue
         for S in call_sites(f, "memcpy"):
             dst = lv(strip_casts(cfg.resolve(S.node["a"][0])))
             if dst not in allocs:
                 continue
+            ncl += 1
             key = "%s/copies-what-it-allocates(%s)" % (name, dst)
-            fn_, asize, aargs = allocs[dst]
+            fn_, asize, aargs, abytes = allocs[dst]
             csize = show(strip_casts(cfg.resolve(S.node["a"][2])))
+            cbytes = const_eval(f, cfg.resolve(S.node["a"][2]))
             asz = show(strip_casts(f.expand(aargs[0]))) if fn_ == "malloc" else None
             csz = show(strip_casts(f.expand(cfg.resolve(S.node["a"][2]))))
-            if fn_ == "malloc" and asz == csz:
+            same = (abytes == cbytes) if (abytes is not None and cbytes is not None) else (fn_ == "malloc" and asz == csz)
+            if same:
                 rep.ok(rid, key, f.loc(S.line), "the clone is allocated and copied with the same size %s" % csize)
             else:
                 rep.fail(rid, key, f.loc(S.line),
                          "the clone %s is allocated as %s(%s) but only %s bytes of the original are copied: the state behind the header (the cached "
-                         "events and the prefill marker) is lost, a cloned stream delivers nothing" % (dst, fn_, asize, csize))
+                         "events / occurrences and the read position) is lost, a cloned stream delivers nothing or resumes at the wrong place" % (dst, fn_, asize, csize))
+        # a whole-object assignment `*clone = *original` copies everything by construction
+        for b, i, x, line in cfg.all_elems():
+            for l, kind, n in writes(cfg.resolve(x)):
+                l_ = strip_casts(l)
+                if kind == "assign" and n.get("k") == "bin" and n["op"] == "=" and l_.get("k") == "un" and l_.get("op") == "*" and lv(strip_casts(l_["e"])) in allocs:
+                    r_ = strip_casts(n["r"])
+                    if r_.get("k") == "un" and r_.get("op") == "*":
+                        ncl += 1
+                        rep.ok(rid, "%s/copies-what-it-allocates(%s)" % (name, lv(strip_casts(l_["e"]))), f.loc(n.get("line", line)), "whole-object copy `%s = %s`" % (lv(l_), lv(r_)))
+    if ncl < 2:
+        rep.broken_("rule=R03.3 expected >=2 stream clones that copy an allocated object, found %d" % ncl)
     f = prog.fn("__make_evrrul", "evical.c")
     cfg = f.cfg
     for b, i, x, line in cfg.all_elems():
